@@ -125,7 +125,10 @@ def ev(t, m):
     if k == 'tupidx':
         return ev(t[1], m)[t[2]]
     if k == 'sub' and t[2][0] != 'slice':
-        return ev(t[1], m)[ev(t[2], m)]
+        try:
+            return ev(t[1], m)[ev(t[2], m)]
+        except (KeyError, IndexError, TypeError) as e_:
+            raise EvalUnknown(f"subscript {sym.show(t)[:60]}: {type(e_).__name__}")
     if k in ('tuple', 'list'):
         return [ev(x, m) for x in t[1]]
     if k == 'set':
